@@ -495,6 +495,8 @@ class Interp:
         elif isinstance(t, (ast.Tuple, ast.List)):
             items = self.models.unpack(self, v, len(t.elts))
             for tt, x in zip(t.elts, items):
+                if is_v(x):
+                    x = self.st.wf_read(x)
                 self.assign_target(tt, x, env)
         else:
             raise OutsideSubset(f"assignment target {type(t).__name__}")
@@ -663,7 +665,7 @@ class Interp:
         spec = self.spec.loop_spec(env, s)
         if spec is None:
             raise OutsideSubset(f"for loop at line {s.lineno} over a symbolic sequence needs an invariant")
-        self._for_inductive(s, env, seq, spec)
+        self._for_inductive(s, env, seq, spec, it)
 
     def _assigned_names(self, stmts):
         names = set()
@@ -673,7 +675,7 @@ class Interp:
                     names.add(n.id)
         return names
 
-    def _for_inductive(self, s, env, seq, spec):
+    def _for_inductive(self, s, env, seq, spec, it=None):
         st = self.st
         label = spec.label or f"{env.func.qual if env.func else '?'}/loop@{s.lineno}"
         n = seq.n
@@ -716,6 +718,19 @@ class Interp:
             for nm, f in _inv_list(spec.inv):
                 st.assume(f(ctx))
             x = st.wf_read(seq.at(i))
+            # the sequence existed at loop entry, so did its elements (the engine refuses loops that grow
+            # the sequence they iterate: `seq` is the entry-time sequence value)
+            st.assume(z3.Implies(V.is_ref(x), V.id(x) <= entry["nalloc"]))
+            src_it = self.lower(it)
+            if isinstance(src_it, self.models.HView) and src_it.kind in ("items", "values", "keys") and is_v(src_it.base):
+                # reading d[k] for the current key: instantiate table invariants for it
+                kcur = seq.at(i) if src_it.kind == "keys" else self.models.dict_parts(self, entry_dict_state(entry, st, src_it.base))[2].at(i)
+                # instance of the order-oracle axiom: the i-th key is a key of the dict (entry-time contents)
+                st.assume(z3.Select(z3.Select(entry["h"].ddom, V.id(src_it.base)), kcur))
+                st.dict_read(src_it.base, kcur)
+                vcur = z3.Select(z3.Select(entry["h"].dval, V.id(src_it.base)), kcur)
+                st.assume(z3.Implies(V.is_ref(vcur), V.id(vcur) <= entry["nalloc"]))
+                st.wf_read(vcur)
             self.assign_target(s.target, x, env)
             try:
                 self.exec_block(s.body, env)
@@ -1129,10 +1144,14 @@ class Interp:
         t = self.tag(v)
         if t == "ref":
             k = self.kind(v)
+            if k is None:
+                k = self.models.split_kind(self, v, f"attr:{name}")
             if k == K_INST:
                 return self.inst_attr(v, name)
             if k in (K_DICT, K_LIST, K_SET):
-                return O.HMeth(v, name)
+                if name in self.models.METHODS[k]:
+                    return O.HMeth(v, name)
+                return _MISSING
             raise OutsideSubset(f"attribute {name} on a reference of unknown kind")
         if t in ("str", "tup", "int", "real"):
             return O.HMeth(v, name)
@@ -1208,6 +1227,7 @@ class Interp:
         rid = V.id(v)
         has = st.has_term(name, rid)
         val = z3.Select(st.h.field(name), rid)
+        self.spec.field_read(self, v, name)
         if st.decide(has, f"hasattr:{name}"):
             return st.wf_read(val)
         if node is not None:
@@ -1224,10 +1244,21 @@ class Interp:
         if not is_v(v):
             raise OutsideSubset(f"setattr on {v!r}")
         t = self.tag(v)
+        if t is None:
+            t = self.models.split_tag(self, v, f"setattr:{name}")
         if t == "obj":
             return self.spec.obj_setattr(self, v, name, value)
+        if t == "none":
+            self.raise_(AttributeError, origin=("setattr-on-None", name))
+        if t in ("str", "int", "bool", "real", "tup"):
+            self.raise_(AttributeError, origin=("setattr-on-primitive", name))
         if t != "ref":
             raise OutsideSubset(f"setattr on value of tag {t}")
+        k = self.kind(v)
+        if k is None:
+            k = self.models.split_kind(self, v, f"setattr:{name}")
+        if k != K_INST:
+            self.raise_(AttributeError, origin=("setattr-on-container", name))
         ci = self.inst_class(v)
         if ci is not None:
             owner, node = ci.lookup(name)
@@ -1477,6 +1508,10 @@ def _owns(fnode, target):
     return False
 
 
+def entry_dict_state(entry, st, d):
+    return d
+
+
 def heap_eq(h1, h2):
     conj = []
     for (n1, a), (n2, b) in zip(h1.components(), h2.components()):
@@ -1505,7 +1540,20 @@ def frame_eq(h1, h2, n0, except_refs=()):
             conj.append(z3.Select(a, r) == z3.Select(b, r))
     if not conj:
         return z3.BoolVal(True)
-    guard = [r <= n0] + [r != V.id(x) for x in except_refs]
+    whole = [x for x in except_refs if not isinstance(x, tuple)]
+    partial = [x for x in except_refs if isinstance(x, tuple)]
+    guard = [r <= n0] + [r != V.id(x) for x in whole]
+    if partial:
+        conj = []
+        for (n1, a), (n2, b) in zip(h1.components(), h2.components()):
+            if a.eq(b):
+                continue
+            g = []
+            if n1.startswith("fld.") or n1.startswith("has."):
+                fname = n1.split(".", 1)[1]
+                g = [r != V.id(x) for (x, flds) in partial if fname in flds]
+            eqn = z3.Select(a, r) == z3.Select(b, r)
+            conj.append(z3.Implies(z3.And(g), eqn) if g else eqn)
     return z3.ForAll([r], z3.Implies(z3.And(guard), z3.And(conj)))
 
 
@@ -1513,7 +1561,9 @@ def _framed_havoc(old, new, n0, allowed):
     """heap that agrees with `old` on every object existing at n0 except `allowed`, and with the havocked
     `new` elsewhere (defined by lambdas, so reads of framed objects reduce to the old contents)"""
     r = z3.Int("r!fh")
-    keep = z3.And([r <= n0] + [r != V.id(x) for x in allowed])
+    whole = [x for x in allowed if not isinstance(x, tuple)]
+    partial = [x for x in allowed if isinstance(x, tuple)]      # (ref, [field names]) : only these fields may change
+    keep = z3.And([r <= n0] + [r != V.id(x) for x in whole])
     names = set(old.fld) | set(new.fld)
     for n in names:
         old.field(n), new.field(n)
@@ -1523,8 +1573,9 @@ def _framed_havoc(old, new, n0, allowed):
         k_ = existed if a in ("kind", "cls") else keep     # the kind/class of an object never changes
         setattr(h, a, z3.Lambda([r], z3.If(k_, z3.Select(getattr(old, a), r), z3.Select(getattr(new, a), r))))
     for n in names:
-        h.fld[n] = z3.Lambda([r], z3.If(keep, z3.Select(old.fld[n], r), z3.Select(new.fld[n], r)))
-        h.has[n] = z3.Lambda([r], z3.If(keep, z3.Select(old.has[n], r), z3.Select(new.has[n], r)))
+        kf = z3.And([keep] + [r != V.id(x) for (x, flds) in partial if n in flds])
+        h.fld[n] = z3.Lambda([r], z3.If(kf, z3.Select(old.fld[n], r), z3.Select(new.fld[n], r)))
+        h.has[n] = z3.Lambda([r], z3.If(kf, z3.Select(old.has[n], r), z3.Select(new.has[n], r)))
     return h
 
 
